@@ -10,6 +10,7 @@ import (
 	"fmt"
 	"os"
 	"path/filepath"
+	"strconv"
 	"strings"
 )
 
@@ -41,6 +42,13 @@ func Variants(m []byte) map[string][]byte {
 	v := map[string][]byte{"raw": m, "hex": []byte(hex.EncodeToString(m)), "HEX": []byte(strings.ToUpper(hex.EncodeToString(m)))}
 	if js, err := json.Marshal(string(m)); err == nil && len(js) > 2 {
 		v["json-escaped"] = js[1 : len(js)-1]
+	}
+	// as a Go-quoted string (%q in an error or log message), also when that message is itself put into JSON
+	if q := strconv.Quote(string(m)); len(q) > 2 {
+		v["go-quoted"] = []byte(q[1 : len(q)-1])
+		if js, err := json.Marshal(q[1 : len(q)-1]); err == nil && len(js) > 2 {
+			v["go-quoted/json-escaped"] = js[1 : len(js)-1]
+		}
 	}
 	for i, b := range b64Alignments(m) {
 		v[fmt.Sprintf("base64/%d", i)] = b
